@@ -163,6 +163,10 @@ func TestC12Names(t *testing.T) {
 		}
 		names = append(names, b)
 	}
+	// one name per character class that JSON string syntax treats specially or that other quoting schemes spell differently
+	for _, r := range []rune{0x00, 0x01, 0x07, 0x08, 0x0b, 0x0c, 0x1b, 0x1f, 0x7f, 0x80, 0x9f, 0xa0, 0xad, '"', '\\', '/', '<', '>', '&', '\'', 0x2028, 0x2029, 0xfeff, 0xfffd, 0xffff, 0xe0001, 0x10ffff, 'é', 0x1F600} {
+		names = append(names, "x.y.E"+string(r), "a"+string(r)+"b.E")
+	}
 	params := []string{"", `{}`, `{"method":"m","interface":"i","parameter":"p","extra":[1,2,{"k":9007199254740993}]}`, `{"parameter":17}`}
 	shard, nshards := Shard()
 	i := 0
@@ -181,7 +185,7 @@ func TestC12Names(t *testing.T) {
 			if p != "" {
 				op.P = json.RawMessage(p)
 			}
-			if gk := []string{"", "", "struct", "ptr", "named", "map", "typed"}[k%7]; gk != "" && (p == "{}" || p == "") {
+			if gk := []string{"", "", "struct", "ptr", "named", "map", "typed"}[k%7]; gk != "" && p == "{}" {
 				op.Go, op.P = gk, GoValueJSON(gk) // the same parameters as a typed Go value
 			}
 			sp := ScriptParams{Conn: 0, ID: k, Script: []Op{op, {Op: "reply", P: json.RawMessage(`{"after":true}`)}}}
